@@ -295,7 +295,9 @@ def cell_ok(spec, cell):
     if kind == "eq":
         return cell == spec[1]
     if kind == "none":
-        return cell in ("", "None")
+        # csv renders None as the empty cell; the text 'None' would read
+        # back as a four-letter string value
+        return cell == ""
     if kind == "any":
         return True
     pos = 0
